@@ -33,6 +33,9 @@ CHECKS = {
  "C05": ("Bounded exhaustive exploration: every function body (up to renaming of the two variables and the two labels) built from {var x, var y, use of x, use of y, A:, B:, goto A, goto B, if c goto A, if c goto B, loop} and nested blocks with at most 6 (quick) / 7 (thorough) statements and nesting depth 3, in three variants (plain; x also a parameter; x also a module constant), excluding bodies the C04 label model rejects. The real pipeline's verdict, the codes E402/E422/E424/E482 and the lines they point at are compared with the scoping model (lexical resolution, duplicate names, the documented prune rule); accepted bodies are additionally checked with an independent path analysis of the syntactic control-flow graph (no path from entry to a use avoids its declaration), and the IR generator's own LLVM verification runs on every accepted body.",
          "Trusted: model/vars.rs and model/labels.rs. A name with duplicate declarations is judged for E422 only. Not covered: bodies beyond the size bound.",
          "explicit-state enumeration of all programs of a small scope with symmetry reduction; reference model plus independent CFG reachability analysis", "5 (C05)"),
+ "C07": ("Complete enumeration of the finite type matrix, identical in both tiers: 10 binary operators x 18 operand forms x 18 (13 primitive variables, an auto-dereferenced pointer, a pointer value, an array, a struct, a word), 6 comparisons x 18 x 18, 2 unary operators x operands, `as` x operands x 17 targets, 13 target types x 18 source operands in each of the contexts initialisation, assignment, argument, return, constant, array element, struct member and index, all call arities 0-3 x 0-4, and the access operations |x|, x[i], x.m on every operand: 7 300 one-function programs through the real pipeline. A well-typed cell must be accepted, an ill-typed cell rejected with a code of its documented set; cells the documentation leaves open are not judged. An invariant monitor walks the resolved tree of every accepted program (matrix and 143 corpus programs): operand types agree, operators are applied to their type class only, casts connect different primitive types, initialisers, returns and arguments have the declared types.",
+         "Trusted: the rule table in checks/c07.rs and the monitor in subjects/monitor.rs (from docs/errors.md, docs/features.md and pinned samples). Unspecified cells: char8 arithmetic, ordering of bool/char8, !bool, !usize, char8<->integer casts other than u8, identity casts on non-primitive types.",
+         "complete enumeration of a finite configuration matrix against a rule table, plus an invariant checked on every reached (accepted) state", "5 (C07)"),
 }
 
 NOT_YET = {}
